@@ -29,7 +29,7 @@ MIN_CASES = 15000
 REQUIRED = ["pczt:ok", "pczt:insufficient", "pczt:change", "pczt:unsupported", "pczt:pczt_zip212", "build:ok", "build:insufficient",
             "build:change", "build:unsupported", "build:missing_key", "deferred:ok", "deferred:insufficient", "deferred:change",
             "deferred:refused_new", "add_refused:add_orchard_output", "add_refused:add_ironwood_output", "add_refused:add_orchard_spend",
-            "add_refused:propose_before", "add_refused:propose_after", "build:real_proofs"]
+            "add_refused:propose_before", "add_refused:propose_after", "build:real_proofs", "staged_signing"]
 
 
 def write_cfg(path, emit, wide, theorems):
@@ -153,6 +153,8 @@ def run(ctx):
     if res["validator_calls"] != 2 * 36:
         raise lib.ToolError("vacuity: %d validator calls" % res["validator_calls"])
 
+    if not ctx.quick():
+        probes(ctx, bindir)
     ctx.traces = len(cases) + res["validator_calls"]
     by = {}
     for c in cases:
@@ -183,6 +185,35 @@ def run(ctx):
             "a bundle required by BundlePadding.bundle_required in a pool the request does not use is outside the domain when the "
             "proposed version cannot carry it, and for DeferredPcztBuilder (see notes/c14-report.md)",
         ])
+
+
+STD_RULE = {"kind": "zip317", "m": 5000, "g": 2, "pin": 150, "pout": 34, "fixed": 0}
+
+
+def probe_case(regime, hsel, pv, opad, ipad, anch, shape):
+    """A transparent coin of exactly the fee + a bundle that BundlePadding.bundle_required asks for in a pool the request
+    does not use.  Outside MC_Builder's domain (see notes/c14-report.md); executed for the record only."""
+    fee = 5000 * max(2, 1 + shape["ao"] + shape["ai"])
+    q = {"slice": "probe", "regime": regime, "hsel": hsel, "pv": pv, "pvWhen": "after", "rule": STD_RULE, "tin": ["pkh"], "tinV": [fee],
+         "tout": [], "toutV": [], "sInV": [], "sOutV": [], "oInV": [], "oOutV": [], "oChgV": [], "iInV": [], "iOutV": [],
+         "opad": opad, "ipad": ipad, "anch": anch, "keys": "exact", "delta": 0}
+    x = {"k": "ok", "amt": 0, "altK": "ok", "altAmt": 0, "addable": True, "fee": fee, "ver": pv, "shape": dict(shape, tin=1, tout=0, ss=0, so=0),
+         "vb": {"t": fee, "s": 0, "o": 0, "i": 0}, "pcztRefused": False, "signOk": True}
+    return {"q": q, "x": x}
+
+
+def probes(ctx, bindir):
+    """Requests outside the domain whose behaviour is reported in notes/c14-report.md; never a verdict."""
+    for what, case in (
+        ("NU6.2 height, proposed v4, Orchard bundle_required, nothing Orchard requested",
+         probe_case("nu5", 1, "V4", "required", "default", {"s": False, "o": True, "i": False}, {"ao": 2, "ai": 0})),
+        ("NU6.3 height, proposed v5, Ironwood bundle_required, nothing Ironwood requested",
+         probe_case("nu63", 0, "V5", "default", "required", {"s": False, "o": False, "i": True}, {"ao": 0, "ai": 2})),
+    ):
+        res = execute_at(ctx, bindir, case, 7)
+        seen = "; ".join(e for m in res["mismatches"] for e in m["errors"]) or "builds a transaction that carries the required bundle"
+        lib.log("note (outside the domain, not judged): %s -> %s" % (what, seen[:500]))
+        ctx.extra.setdefault("probes_outside_domain", []).append({"request": what, "observed": seen[:500]})
 
 
 # ------------------------------------------------------------------------------------------------
